@@ -726,6 +726,14 @@ M("l2-tuple-guard-removed", "C09", "fire L2", "src/literal.rs",
   """            (Literal::Tuple(fields1), Type::Tuple(fields2)) => {""", "tuple literals with missing components accepted")
 
 # ---------------------------------------------------------------- C17
+REVERT("revert-untyped-numbers-in-range", "C17", "fire T21", "91e7fa5", "pre-fix tree: literals that stay untyped are never compared with the 32-bit bounds")
+M("t21-walk-not-on-every-accepting-path", "C17", "fire T21", "src/check.rs",
+  """                    expect_untyped_numbers_in_range(&body, &mut errors);
+                    if errors.is_empty() {""",
+  """                    if self.is_pub {
+                        expect_untyped_numbers_in_range(&body, &mut errors);
+                    }
+                    if errors.is_empty() {""", "only public functions are walked")
 REVERT("revert-pattern-both-bounds", "C17", "fire T15", "18041d9", "pre-fix tree: a range pattern's lower bound is only compared with min, its upper bound only with max")
 REVERT("revert-irrefutable-bindings", "C17", "fire T4", "a9fb7c7", "pre-fix tree: refutable let / for patterns accepted")
 M("t1-if-condition-error-dropped", "C17", "fire T1", "src/check.rs",
